@@ -133,6 +133,52 @@ def fam_prog(E, names, k, nops, cancels=True, repeats=4):
             same_trace(E, t1, tr, 'same-trace-when-repeated-with-other-memory-layout')
 
 
+def fam_float(E, repeats=2):
+    """IEEE double dates (z3 floating point): a sleeper whose second delay may be absorbed by
+    the current date (now + d == now), next to a bystander taking turns; the trace must be the
+    same on both wait queue backends"""
+    start = E.float('start', 0.0, 1e9)
+    d1 = E.float('d1', 0.0, 100.0)
+    d2 = E.float('d2', 0.0, 100.0)
+    b = E.float('b', 0.0, 100.0)
+    from ..engine import GT as _GT
+    E.assume(_GT(d2, 0.0), 'positive delay')
+
+    def run_once(waitqueue, note):
+        log = Log(note=note)
+
+        async def sleeper():
+            await (time + d1)
+            log('s', 'first')
+            await (time + d2)
+            log('s', 'second')
+            await (time + d2)
+            log('s', 'third')
+
+        async def bystander():
+            await (time + b)
+            for k in range(3):
+                log('b', 'turn', k)
+                await instant
+
+        out = simulate(sleeper(), bystander(), start=start, log=log,
+                       probe=Probe(check_fifo=True, check_clock=False), waitqueue=waitqueue)
+        return log.events, out
+
+    t1, out1 = run_once(HQWaitQueue, True)
+    t2, out2 = run_once(SDWaitQueue, False)
+    same_trace(E, t1, t2, 'same-trace-on-both-wait-queue-backends')
+    E.prove(out1.exc is None and out2.exc is None, 'run-ends-normally', (out1.exc, out2.exc))
+    sec = [e for e in t1 if e[:2] == ('s', 'second')]
+    fst = [e for e in t1 if e[:2] == ('s', 'first')]
+    if sec and fst:
+        E.reach_if(EQ(sec[0][2], fst[0][2]), 'delay-absorbed-by-the-date')
+    if E.concrete:
+        for r in range(repeats):
+            tr, _ = run_once(HQWaitQueue, False)
+            same_trace(E, t1, tr, 'same-trace-when-repeated-with-other-memory-layout')
+
+
 # ---- assertion mode differential (python vs python -O): run by cli after the exploration
 def post_check(pid, tier, reports, seed):
     """explores the same families under `python -O` in a subprocess and compares, path by path
@@ -190,6 +236,19 @@ FAMILIES = [
            quick=dict(names=TINY, k=2, nops=1, cancels=False, _validate_every=3),
            thorough=dict(names=SMALL, k=2, nops=1, _validate_every=7, _max_wall=2400),
            reach=TINY, nonrepro='inconclusive', bounds='2 activities x 1 op (quick: 9 ops, thorough: 20 ops + cancel)'),
+    Family('six_sleepers', fam_prog,
+           quick=dict(names=['sleep'], k=6, nops=1, cancels=False, _validate_every=5),
+           thorough=dict(names=['sleep'], k=7, nops=1, cancels=False, _validate_every=23),
+           nonrepro='inconclusive',
+           bounds='6 (thorough 7) sleepers with free delays: every shape of the wait queue, on '
+                  'both backends'),
+    Family('float_absorb', fam_float,
+           quick=dict(),
+           thorough=dict(_max_wall=1200),
+           reach=['delay-absorbed-by-the-date'],
+           nonrepro='inconclusive',
+           bounds='IEEE double dates: start in [0,1e9], delays in (0,100]; sleeper with a delay '
+                  'that may be absorbed by the date, bystander; heap vs SortedDict backend'),
     Family('pair_cancel', fam_prog,
            quick=dict(names=['sleep', 'lock', 'await queue', 'borrow'], k=2, nops=1, cancels=True,
                       _validate_every=3),
